@@ -83,6 +83,19 @@ func check(c Case) (kind, what string, nt bool) {
 			return "differs-" + refName, fmt.Sprintf("autometa %s; %s loader %s (%s)", a, refName, *ref, c.Desc), nt
 		}
 	}
+	// the matching specific loader given THE SAME KIND OF READER as autometa was: a loader that treats one reader
+	// type specially must still agree with what it does on the bare input
+	if c.Std != "" && refName != "" {
+		r, _, cleanup := src.Std(c.Std, c.Prefix, c.Data, filepath.Join(ev.Root(), "out", "run", "C19"))
+		o := ld.Run(refName, r)
+		cleanup()
+		if o.Panic != "" {
+			return "panic", o.Panic, nt
+		}
+		if !ld.Same(*ref, o) {
+			return "reader-type-" + refName, fmt.Sprintf("%s loader reading from a %s: %s; from the bare input: %s; autometa from a %s: %s (%s)", refName, c.Std, o, *ref, c.Std, a, c.Desc), nt
+		}
+	}
 	if a.Stream == nil {
 		return "nil-stream", "autometa returned a nil stream", nt
 	}
@@ -144,7 +157,7 @@ func TestC19(t *testing.T) {
 		fmt.Println("REPLAY case passed")
 		return
 	}
-	ev.Rule("inputs: rapid-generated valid files of the three formats (C05/C06 grammar), rapid structure-aware mutations and truncations of those and of the repository/built/hostile seeds, polyglots (signature of one format + body of another, RIFF/WEBP header wrapping another file, PNG signature + 4 GiB chunk so the PNG loader drains the source, JPEG SOI+COM followed by another file, concatenations), random bytes, empty input; the auto loader additionally under short-read schedules, with the last bytes arriving together with EOF, and with reads that return nothing now and then. Oracle: the first of pngmeta/jpegmeta/webpmeta.Load that succeeds on the complete input (differential, incl. ICC error text), else (nil, error); the stream always replays the input. non-trivial = distinct input on which an earlier candidate consumed > 8 bytes before failing, or which a non-first loader accepts")
+	ev.Rule("inputs: rapid-generated valid files of the three formats (C05/C06 grammar), rapid structure-aware mutations and truncations of those and of the repository/built/hostile seeds, polyglots (signature of one format + body of another, RIFF/WEBP header wrapping another file, PNG signature + 4 GiB chunk so the PNG loader drains the source, JPEG SOI+COM followed by another file, concatenations), random bytes, empty input; the auto loader additionally under short-read schedules, with the last bytes arriving together with EOF, and with reads that return nothing now and then. Oracle: the first of pngmeta/jpegmeta/webpmeta.Load that succeeds on the complete input (differential, incl. ICC error text), else (nil, error); the stream always replays the input; when autometa reads from a standard-library reader type, the matching specific loader is also given that reader type and must agree with itself on the bare input. non-trivial = distinct input on which an earlier candidate consumed > 8 bytes before failing, or which a non-first loader accepts")
 	ev.Assume("both sides are prism code on the same bytes; independence of the specific loaders comes from C05/C06")
 	all := append(seeds.All(), seeds.Hostile()...)
 	bad := map[string]bool{}
